@@ -19,13 +19,14 @@ import (
 )
 
 type rsCase struct {
-	Pub    string `json:"pub"`   // rtsp | rtmp
-	Video  string `json:"video"` // avc | hevc | ""
-	Audio  bool   `json:"audio"`
-	Aggr   bool   `json:"aggregate"`        // parameter sets in one aggregation packet (RTSP publisher)
-	Join   int    `json:"join"`             // the player joins before step Join (-1: before the publisher arrives)
-	Join2  int    `json:"join2"`            // a second player (-2: none)
-	ACodec string `json:"acodec,omitempty"` // RTMP publisher's audio: "" AAC | pcmu | pcma | opus (no sequence header)
+	Pub       string `json:"pub"`   // rtsp | rtmp
+	Video     string `json:"video"` // avc | hevc | ""
+	Audio     bool   `json:"audio"`
+	Aggr      bool   `json:"aggregate"`            // parameter sets in one aggregation packet (RTSP publisher)
+	Join      int    `json:"join"`                 // the player joins before step Join (-1: before the publisher arrives)
+	Join2     int    `json:"join2"`                // a second player (-2: none)
+	LateVideo bool   `json:"late_video,omitempty"` // RTMP publisher, audio only for 20 messages, then a video sequence header and frames (the description stays audio-only)
+	ACodec    string `json:"acodec,omitempty"`     // RTMP publisher's audio: "" AAC | pcmu | pcma | opus (no sequence header)
 }
 
 var (
@@ -216,6 +217,25 @@ func rsScript(c rsCase) []rsStep {
 		if c.Audio {
 			addM(8, base+80, aframe(2*g+1), false, false)
 		}
+	}
+	if c.LateVideo {
+		// the camera is switched on after the microphone: a video sequence header and frames from message 20 on
+		var out []rsStep
+		for i, x := range st {
+			if i == 20 {
+				v := sw.MakeMsg("vsh", 1, 0, 0)
+				out = append(out, rsStep{msg: ref.Msg{Csid: 6, Type: 9, Msid: 1, Ts: x.msg.Ts, Payload: v.Payload}})
+			}
+			if i >= 20 && i%2 == 0 {
+				k := sw.MakeMsg("inter", i, x.msg.Ts, 64)
+				if i%6 == 2 {
+					k = sw.MakeMsg("key", i, x.msg.Ts, 64)
+				}
+				out = append(out, rsStep{msg: ref.Msg{Csid: 6, Type: 9, Msid: 1, Ts: x.msg.Ts, Payload: k.Payload}})
+			}
+			out = append(out, x)
+		}
+		st = out
 	}
 	return st
 }
@@ -417,7 +437,7 @@ func rsRunStat(c rsCase) (vs []rsViol, stat rsStat, infra error) {
 		} else if c.Audio {
 			// no video: never held back. Every audio packet published once the player is set up reaches it at once
 			for i, s := range script {
-				if i < pl.join || i <= known+2 || s.video { // (a held DESCRIBE is answered once the tracks are known; SETUP and PLAY take the next steps)
+				if i < pl.join || i <= known+2 || s.video || (c.Pub == "rtmp" && s.msg.Type != 8) { // (a held DESCRIBE is answered once the tracks are known; SETUP and PLAY take the next steps)
 					continue
 				}
 				prev := 0
@@ -439,6 +459,13 @@ func rsRunStat(c rsCase) (vs []rsViol, stat rsStat, infra error) {
 
 func rsCases(quick bool) []rsCase {
 	var cs []rsCase
+	// RTMP publishers whose video starts after the stream has been described as audio-only
+	for _, ac := range []string{"", "pcma"} {
+		n := len(rsScript(rsCase{Pub: "rtmp", Audio: true, ACodec: ac, LateVideo: true}))
+		for j := -1; j < n; j++ {
+			cs = append(cs, rsCase{Pub: "rtmp", Audio: true, ACodec: ac, LateVideo: true, Join: j, Join2: -2})
+		}
+	}
 	// RTMP publishers with G.711 / Opus audio and no video (payload type 0 and 8 are static; nothing announces them)
 	for _, ac := range []string{"pcmu", "pcma", "opus"} {
 		n := len(rsScript(rsCase{Pub: "rtmp", Audio: true, ACodec: ac}))
